@@ -26,7 +26,10 @@ EPS = 2.0**-52
 
 def cases(tier, seed):
     n = 240 if tier == "quick" else 3200
-    return [{"seed": seed, "idx": i} for i in range(n)]
+    out_ = [{"seed": seed, "idx": i} for i in range(n)]
+    if tier == "thorough":
+        out_.append({"seed": seed, "kind": "repo_tests", "_cost": 40})
+    return out_
 
 
 def make_field(rng, ny, nx, kind):
@@ -90,6 +93,10 @@ def brute_percentile(vals, p):
 
 
 def run_case(case):
+    if case.get("kind") == "repo_tests":
+        from vlib import hooks
+
+        return hooks.run_repo_tests(ID, ['test_plotting.py'])
     import numpy as np
     import bldfm
     from bldfm import utils as U
